@@ -90,6 +90,26 @@ CHECKS.update({
             "explicit-state exhaustive enumeration of (array, new coordinates, options) on the implementation, per-fibre NumPy oracle"),
 })
 
+CHECKS.update({
+    "C13": ("DESIGN.md 5/C13",
+            "Explicit-state breadth-first search over histories of Dataset mutations (about 60 parameterised events incl. rejected assignments, renames, "
+            "relabelling through the dataset / a variable / in bulk) from 4 start states; each transition runs on the real Dataset in lock-step with a "
+            "reference model and all sharing / pruning / rollback invariants are evaluated in every reached state; states de-duplicated on a canonical form.",
+            "trusts RefDS in mc/props/c13.py; depth 3 (quick) / 5 (thorough); renames to names in use only as whole-name permutations; key order and attrs not covered",
+            "explicit-state BFS over operation histories of the real Dataset (state = replayed history, canonical-form de-duplication) against a reference model"),
+    "C14": ("DESIGN.md 5/C14",
+            "Every Dataset-level operation form (indexing spellings, reductions, take/sort/reindex/interp axis, arithmetic, stack_ds/concatenate_ds) on 6 "
+            "Datasets with 0-d variables and variables lacking the dimension is compared, variable by variable, with the DimArray operation on that variable.",
+            "differential: the DimArray path is the reference (itself checked by C01-C18); key order not covered",
+            "explicit-state exhaustive enumeration of (dataset, operation) executed on the implementation, differential per-variable oracle"),
+    "C16": ("DESIGN.md 5/C16",
+            "Routing: BFS over histories of attribute events (set/get/has/del for public, underscore, class-member and dimension names, direct attrs "
+            "edits) on DimArray, Dataset and Axis against a rule table; propagation: every operation class named by the property on arrays carrying "
+            "array- and axis-level metadata under every class of name.",
+            "trusts the rule table in mc/props/c16.py (transcription of the statement); depth 3 (quick) / 4 (thorough)",
+            "explicit-state BFS over attribute-access histories on the real objects + exhaustive sweep of operation classes"),
+})
+
 PENDING = ["C01", "C03", "C05", "C06", "C07", "C08", "C09", "C10", "C11", "C12", "C13", "C14", "C15", "C16", "C17", "C18", "C19", "C20"]
 
 
